@@ -17,7 +17,10 @@ import (
 
 func init() { register("C17", runC17, evalC17) }
 
-var c17Floats = []float64{math.NaN(), math.Inf(1), math.Inf(-1), math.Copysign(0, -1), 0, 1.5, -1e-7, 1e21, 5e-324, math.MaxFloat64}
+var c17Floats = []float64{math.NaN(), math.Inf(1), math.Inf(-1), math.Copysign(0, -1), 0, 1.5, -1e-7, 1e21, 5e-324, math.MaxFloat64,
+	// the other NaNs: signalling (quiet bit clear) with the smallest and a middle
+	// payload, negative, quiet with a payload
+	math.Float64frombits(0x7FF0000000000001), math.Float64frombits(0xFFF4000000000000), math.Float64frombits(0xFFF8000000000000), math.Float64frombits(0x7FFFFFFFFFFFFFFF)}
 
 var c17Members = []string{
 	"", "{}", `{"id":1,"properties":{"a":[1,{"b":"c"}]}}`, `{"properties":null}`, " { \"id\" : \"x\" ,\n \"properties\" : { } } ",
